@@ -61,3 +61,34 @@ Example C18_nonvacuous :
   eval_off ExtZArith (fun _ _ => PStd) (EvT 1 2 (EvT 0 2 P)) w 5 = [Fin 3; Fin 3; Fin 3; Fin 1; NegInf] /\
   eval_off ExtZArith (fun _ _ => PStd) (EvT 1 4 P) w 5 = [Fin 3; Fin 3; Fin 3; Fin 1; NegInf].
 Proof. split; vm_compute; reflexivity. Qed.
+
+(* dense time: the same laws on the tick semantics rhoZ *)
+From Coq Require Import ZArith.
+From RV Require Import Dense DenseSem DenseLaws.
+Section C18Dense.
+Context {VS : Val} (AR : Arith VS) (pk : formula -> formula -> pkind) (W : list dsig) (tend : Z).
+Local Notation RZ := (rhoZ AR pk W tend).
+Theorem C18_dense_not_eventually : forall a b p t, RZ (Not (EvT a b p)) t = RZ (AlwT a b (Not p)) t.
+Proof. exact (dlaw_not_evt AR pk W tend). Qed.
+Theorem C18_dense_not_always : forall a b p t, RZ (Not (AlwT a b p)) t = RZ (EvT a b (Not p)) t.
+Proof. exact (dlaw_not_alwt AR pk W tend). Qed.
+Theorem C18_dense_not_once_bounded : forall a b p t, RZ (Not (OnceT a b p)) t = RZ (HistT a b (Not p)) t.
+Proof. exact (dlaw_not_oncet AR pk W tend). Qed.
+Theorem C18_dense_not_once : forall p t, RZ (Not (Once p)) t = RZ (Hist (Not p)) t.
+Proof. exact (dlaw_not_once AR pk W tend). Qed.
+Theorem C18_dense_implies : forall p q t, RZ (Implies p q) t = RZ (Or (Not p) q) t.
+Proof. exact (dlaw_implies AR pk W tend). Qed.
+Theorem C18_dense_eventually_eventually : forall a b c d p t, a <= b -> c <= d ->
+  RZ (EvT a b (EvT c d p)) t = RZ (EvT (a + c) (b + d) p) t.
+Proof. exact (dlaw_evt_evt AR pk W tend). Qed.
+Theorem C18_dense_once_once : forall a b c d p t, a <= b -> c <= d ->
+  RZ (OnceT a b (OnceT c d p)) t = RZ (OnceT (a + c) (b + d) p) t.
+Proof. exact (dlaw_oncet_oncet AR pk W tend). Qed.
+End C18Dense.
+Print Assumptions C18_dense_not_eventually.
+Print Assumptions C18_dense_not_always.
+Print Assumptions C18_dense_not_once_bounded.
+Print Assumptions C18_dense_not_once.
+Print Assumptions C18_dense_implies.
+Print Assumptions C18_dense_eventually_eventually.
+Print Assumptions C18_dense_once_once.
